@@ -184,14 +184,15 @@ class Run:
         missing = [k for k in self.required_reach if not self.reach.get(k)]
         if missing:
             self.inconclusive.append("monitor clause never reached: " + ",".join(missing))
-        os.makedirs(os.path.join(VERIF, "evidence"), exist_ok=True)
+        evdir = os.environ.get("VERIF_EVIDENCE_DIR") or os.path.join(VERIF, "evidence")
+        os.makedirs(evdir, exist_ok=True)
         replay_paths = []
         seen_mech = {}
         for mech, summary, case in self.violations:
             seen_mech[mech] = seen_mech.get(mech, 0) + 1
             if seen_mech[mech] > 3:
                 continue
-            d = os.path.join(VERIF, "replays", self.prop)
+            d = os.path.join(os.environ.get("VERIF_EVIDENCE_DIR") or VERIF, "replays", self.prop)
             os.makedirs(d, exist_ok=True)
             p = os.path.join(d, sha12([mech, case]) + ".json")
             with open(p, "w") as f:
@@ -223,7 +224,7 @@ class Run:
             "verdict": ("violated" if self.violations else
                         "inconclusive" if self.inconclusive else "held"),
         }
-        with open(os.path.join(VERIF, "evidence", self.prop + ".json"), "w") as f:
+        with open(os.path.join(evdir, self.prop + ".json"), "w") as f:
             json.dump(ev, f, indent=1, default=jsonable)
         # stdout
         print("%s tier=%s seed=%d evaluations=%d distinct_nontrivial=%d wall=%.1fs" % (
